@@ -41,6 +41,9 @@ def main():
     if args and args[0] == "--round2":
         base, offset = "/tmp/seed2", 3
         args = args[1:]
+    elif args and args[0] == "--round3":
+        base, offset = "/tmp/seed3", 6
+        args = args[1:]
     init = initial_results(args)
     kept = 0
     for cand in sorted(glob.glob(base + "_C*/cand*")):
